@@ -161,3 +161,62 @@ def _single_atom(nc):
 
 def parse_expr(src):
     return ast.parse(src, mode='eval').body
+
+
+# ---------------------------------------------------------------------------------------------------- E1 terms -> NC normal forms
+class KeyNC:
+    """convert E1 term keys (cc.terms.tkey) of matrix-valued expressions to NC normal forms.  Matrix products, inverses, solves,
+    transposes, sums and scalar signs are interpreted; every other subterm is a base atom named M1, M2, ... by first appearance
+    (`names` maps the name back to its key, so rules identify base matrices by CONTENT, not by the names of locals or helpers)."""
+    def __init__(s, symmetric_pred=None):
+        s.names = {}         # atom name -> key
+        s._by_key = {}
+        s.sym = set()
+        s.realed = set()     # base atoms that were read through .real
+        s.symmetric_pred = symmetric_pred or (lambda key: False)
+
+    def base(s, key):
+        r = repr(key)
+        if r not in s._by_key:
+            nm = f'M{len(s._by_key) + 1}'
+            s._by_key[r] = nm; s.names[nm] = key
+            if s.symmetric_pred(key): s.sym.add(nm)
+        return NC.atom(s._by_key[r])
+
+    def of(s, k):
+        if isinstance(k, tuple) and k[:1] == ('poly',):
+            tot = NC()
+            for mono, (re, im) in k[1:]:
+                if im != 0 or mono == (): return s.base(k)
+                if len(mono) == 1 and mono[0][1] == 1: tot = tot + s.atom(mono[0][0]).scale(re)
+                else: tot = tot + s.base(('mono', mono)).scale(re)
+            return tot
+        return s.atom(k)
+
+    def any(s, k):
+        """atomname slots hold either an atom or a full key"""
+        return s.of(k) if isinstance(k, tuple) and k[:1] == ('poly',) else s.atom(k)
+
+    def atom(s, at):
+        if isinstance(at, tuple) and at:
+            h = at[0]
+            if h == 'matmul' and len(at) == 3: return s.of(at[1]) @ s.of(at[2])
+            if h == 'T' and len(at) == 2: return s.any(at[1]).T(s.sym)
+            if h in ('real',) and len(at) == 2:
+                r = s.any(at[1]); nm = _single_atom(r)
+                if nm is not None: s.realed.add(nm)
+                return r
+            if h == 'inv' and len(at) == 2: return s.any(at[1]).inv(s.sym)
+            if h == 'call' and len(at) == 4 and isinstance(at[1], tuple) and at[1][0] == 'ext':
+                fn = at[1][1].split('.')[-1]
+                if fn == 'inv' and len(at[2]) == 1: return s.of(at[2][0]).inv(s.sym)
+                if fn == 'solve' and len(at[2]) == 2: return s.of(at[2][0]).inv(s.sym) @ s.of(at[2][1])
+                if fn in ('matmul', 'dot') and len(at[2]) == 2: return s.of(at[2][0]) @ s.of(at[2][1])
+                if fn in ('transpose',) and len(at[2]) == 1: return s.of(at[2][0]).T(s.sym)
+            if h == 'opq' and len(at) >= 3:
+                fn = at[1]
+                if fn in ('np.matmul', 'np.dot') and len(at) == 4: return s.any(at[2]) @ s.any(at[3])
+                if fn in ('np.transpose',) and len(at) == 3: return s.any(at[2]).T(s.sym)
+                if fn in ('np.real', 'np.asarray', 'np.array', 'np.copy', 'np.ascontiguousarray') and len(at) == 3: return s.any(at[2])
+                if fn in ('np.negative',) and len(at) == 3: return s.any(at[2]).neg()
+        return s.base(at)
